@@ -45,8 +45,9 @@ impl CheckDef for Comp {
         // blocks: single events, or a steady path — a run of (nearly) equal samples, during which the variance term
         // decays below the clock granularity (the floor of the variance term only matters there)
         let single = prop_oneof![3 => rtt_ns().prop_map(Ev::Sample), 1 => Just(Ev::Timeout)].prop_map(|e| vec![e]);
-        let steady = (prop_oneof![2 => 150_000_000u64..2_000_000_000, 1 => 1_000_000u64..150_000_000, 1 => 2_000_000_000u64..70_000_000_000], 4usize..60, prop_oneof![Just(0u64), 1u64..200_000, 200_000u64..3_000_000])
-            .prop_flat_map(|(base, n, jitter)| prop::collection::vec(0..=jitter, n).prop_map(move |js| js.into_iter().map(|j| Ev::Sample(base + j)).collect::<Vec<_>>()));
+        let steady = (prop_oneof![2 => 150_000_000u64..2_000_000_000, 1 => 1_000_000u64..150_000_000, 1 => 2_000_000_000u64..70_000_000_000, 1 => 0u64..1_000_000], 4usize..90, prop_oneof![Just(0u64), 1u64..200_000, 200_000u64..3_000_000])
+            // (timeouts also strike in the middle of a steady path: one step in sixteen, in half of the runs)
+            .prop_flat_map(|(base, n, jitter)| (prop::collection::vec((0..=jitter, 0u8..16), n), any::<bool>()).prop_map(move |(js, with_to)| js.into_iter().map(|(j, t)| if with_to && t == 0 { Ev::Timeout } else { Ev::Sample(base + j) }).collect::<Vec<_>>()));
         prop::collection::vec(prop_oneof![12 => single, 1 => steady], 1..max)
             .prop_map(|blocks| Case { evs: blocks.into_iter().flatten().take(400).collect() })
             .boxed()
@@ -59,7 +60,7 @@ impl CheckDef for Comp {
         let mut fp = Fp::default();
         let mut out = Outcome::pass();
         let (mut samples, mut timeout_then_sample, mut pending_timeout) = (0u32, false, false);
-        let (mut cap, mut floor, mut gran, mut huge) = (false, false, false, false);
+        let (mut cap, mut floor, mut gran, mut huge, mut same_estimate) = (false, false, false, false, false);
         let near = |a: u128, b: u128| (a as i128 - b as i128).abs() <= TOL;
 
         // the value before the first sample is not part of the property beyond its bounds: the model starts from it
@@ -73,10 +74,13 @@ impl CheckDef for Comp {
             match ev {
                 Ev::Sample(ns) => {
                     est.sample(Duration::from_nanos(*ns));
+                    let before = (m.srtt, m.rttvar);
                     m.sample(*ns as u128);
                     samples += 1;
                     if pending_timeout {
                         timeout_then_sample = true;
+                        // the estimate itself may not move (converged path): the back-off must be undone all the same
+                        if before == (m.srtt, m.rttvar) { same_estimate = true; }
                         pending_timeout = false;
                     }
                     if *ns > 60_000_000_000 {
@@ -131,6 +135,7 @@ impl CheckDef for Comp {
         if gran { out.labels.push("granularity_term_active"); }
         if huge { out.labels.push("huge_sample"); }
         if timeout_then_sample { out.labels.push("timeout_then_sample"); }
+        if same_estimate { out.labels.push("sample_after_timeout_leaves_estimate_unchanged"); }
         out
     }
 }
